@@ -670,16 +670,24 @@ def oracle_reserve(h):
             a = c.args[1:]
             k = 0
             seen = set()
+            reserved = 0
+            all_listed = True
             for _ in range(n):
                 if v in V1:
                     u, cnt = a[k], a[k + 1] + a[k + 2]
                     k += 4
+                    ut = V(va, 'utStatus', u) if u in h.addrs else None
+                    if ut:
+                        reserved += ut[3] + ut[4]
+                    else:
+                        all_listed = False
                 elif v == 'gt2':
                     u, cnt, m = a[k], a[k + 1], a[k + 2]
                     infos = a[k + 3:k + 3 + 2 * m]
                     k += 3 + 2 * m
                     if cnt == 0:
                         continue
+                    reserved += sum(infos[2 * j] for j in range(m))
                     if cnt > 255 or m > 10 or 20 <= u <= 30 or any(infos[2 * j] > infos[2 * j + 1] for j in range(m)):
                         out.append(viol('C18', i, 'limits', 'entry (%d, %d, %r) accepted' % (u, cnt, infos)))
                 else:
@@ -695,6 +703,12 @@ def oracle_reserve(h):
                 last += cnt
             if V(va, 'totalTickets')[0] != last:
                 out.append(viol('C18', i, 'total', 'total tickets %d, expected %d' % (V(va, 'totalTickets')[0], last)))
+            if v in V1 + ('gt2',) and all_listed:
+                wb, wa = V(vb, 'nrWinning')[0], V(va, 'nrWinning')[0]
+                if reserved > wb:
+                    out.append(viol('C18', i, 'over_reserve', 'allocation reserving %d guaranteed tickets accepted with %d base winners left' % (reserved, wb)))
+                elif wb - wa != reserved:
+                    out.append(viol('C18', i, 'reserve', 'the allocated participants hold %d guaranteed tickets but the base winners went from %d to %d' % (reserved, wb, wa)))
     return out
 
 
